@@ -21,14 +21,16 @@ def main():
     meta = json.load(open(os.path.join(sd, "meta.json")))
     prop = meta.get("property")
     checks = sys.argv[2:] or [prop]
-    tag = "%s-%s" % (prop, os.path.basename(sd))
+    tag = "%s-%s%s" % (prop, os.environ.get("SEED_ROUND", ""), os.path.basename(sd))
     wt = "/var/tmp/seedwt-%s-%d" % (tag, os.getpid())
     res = {"seed": sd, "property": prop, "checks": {}}
     sh("git -C /repo worktree add --detach %s HEAD" % wt)
     try:
         demo = "demo.py" if os.path.exists(os.path.join(sd, "demo.py")) else "demo.sh"
+        harmless = not os.path.exists(os.path.join(sd, demo))      # a behaviour-preserving refactoring: no demo, the checks must stay quiet
+        res["harmless"] = harmless
         runner = "/venv/bin/python" if demo.endswith(".py") else "bash"
-        rc0, out0 = sh("%s %s" % (runner, os.path.join(sd, demo)), cwd=wt, timeout=1800)
+        rc0, out0 = (0, "") if harmless else sh("%s %s" % (runner, os.path.join(sd, demo)), cwd=wt, timeout=1800)
         res["demo_passes_without_change"] = rc0 == 0
         rc, out = sh("git apply %s" % os.path.join(sd, "patch.diff"), cwd=wt)
         res["patch_applies"] = rc == 0
@@ -39,7 +41,7 @@ def main():
         rc, out = sh("/venv/bin/python -m pytest -q -p no:cacheprovider --timeout=900 -x", cwd=wt, timeout=1800)
         res["tests_pass"] = rc == 0
         res["tests_tail"] = out[-200:]
-        rc1, out1 = sh("%s %s" % (runner, os.path.join(sd, demo)), cwd=wt, timeout=1800)
+        rc1, out1 = (1, "harmless: no demo") if harmless else sh("%s %s" % (runner, os.path.join(sd, demo)), cwd=wt, timeout=1800)
         res["demo_fails_with_change"] = rc1 != 0
         res["demo_tail"] = out1[-300:]
         sh("find %s -name __pycache__ -type d -exec rm -rf {} +" % wt)
